@@ -638,7 +638,9 @@ def guards_of(fv, target, brs=None, prog=None):
             # a non-dominating branch can still be necessary per edge, but we keep to dominating ones:
             # they are the ones that render as "X happens only if C"
             continue
-        edges = [(v, b) for v, b in br.cases] + [("else", br.otherwise)]
+        edges = [(v, b) for v, b in br.cases]
+        if fv.blocks[br.otherwise]["t"]["t"] != "unreachable":
+            edges.append(("else", br.otherwise))
         ok_labels = set()
         for v, b in edges:
             # can target be reached from entry if only this out-edge of bi is usable?
